@@ -77,7 +77,10 @@ func buildBlockStatements(closureContext *parser.ClosureContext) []core_domain.C
 			argumentsContext := pathExpression.GetChild(1).(*parser.PathElementContext).GetChild(0).(*parser.ArgumentsContext)
 			argListCtx := argumentsContext.GetChild(1).(*parser.EnhancedArgumentListContext)
 			for _, argElement := range argListCtx.AllEnhancedArgumentListElement() {
-				result = ConvertToJDep(argElement.GetText())
+				// only string notation is a dependency: project(':x'), fileTree(...), group: 'g' are skipped
+				if isStringNotation(argElement.GetText()) {
+					result = ConvertToJDep(argElement.GetText())
+				}
 			}
 		}
 
@@ -101,14 +104,11 @@ func BuildDependency(argumentListContext *parser.ArgumentListContext) *core_doma
 	for _, arg := range argumentListContext.AllArgumentListElement() {
 		if reflect.TypeOf(arg.(*parser.ArgumentListElementContext).GetChild(0)).String() == "*parser.ExpressionListElementContext" {
 			listElementContext := arg.(*parser.ArgumentListElementContext).GetChild(0).(*parser.ExpressionListElementContext)
-			literalPrmrAltContext := listElementContext.
-				GetChild(0).
-				GetChild(0).
-				GetChild(0).
-				GetChild(0).(*parser.LiteralPrmrAltContext)
-
-			resultStr := literalPrmrAltContext.Literal().GetChild(0).(*parser.StringLiteralContext).StringLiteral().GetText()
-			result = ConvertToJDep(resultStr)
+			// only string notation is a dependency: project(':x'), fileTree(...) and the like are skipped
+			resultStr := listElementContext.GetText()
+			if isStringNotation(resultStr) {
+				result = ConvertToJDep(resultStr)
+			}
 		}
 	}
 	return result
@@ -119,4 +119,14 @@ func ConvertToJDep(result string) *core_domain.CodeDependency {
 	withQuote := strings.Trim(result, "'\"")
 	split := strings.Split(withQuote, ":")
 	return core_domain.NewCodeDependency(split[0], split[1])
+}
+
+// isStringNotation tells whether an argument is one quoted 'group:artifact[:version]' string
+// (the version part may be interpolated: "group:artifact:${version}")
+func isStringNotation(text string) bool {
+	if len(text) < 2 || (text[0] != '\'' && text[0] != '"') || text[len(text)-1] != text[0] {
+		return false
+	}
+	inner := text[1 : len(text)-1]
+	return !strings.ContainsAny(inner, "'\"") && strings.Contains(inner, ":")
 }
